@@ -307,6 +307,8 @@ def run (inp obs : List String) : Verdict :=
     if obs.contains "P-missing" then { agree := false, model := "parallel-harness-binary-missing" } else
     let filesOf := layers.map (fun l => l.files.map (·.file))
     let dupFile := layers.any (fun l => !nodupB (l.files.map (·.fname)))
+    -- a `contents.plist` value with a directory component (`../other/f`, `./f`, `sub/f`)
+    let dirComp := layers.any (fun l => l.files.any (fun f => f.fname.contains '/'))
     -- model: sequential build
     let seqMaps := seqFont false [] 0 filesOf
     let modelOk := seqMaps.all Option.isSome
@@ -354,9 +356,13 @@ def run (inp obs : List String) : Verdict :=
           let bad := (((layers.zip seqMaps).zip seqDirs).zip states).filterMap fun q =>
             let p := q.1
             let li := p.1.1
-            match p.1.2, ds.find? (·.name = li.name), ss.find? (·.dir = li.dir) with
+            -- with a directory component in `contents` the save may fail or land elsewhere (C09's business): only the
+            -- load is compared with the model then; par = seq is compared as always
+            let sObs := if dirComp then some (⟨li.dir, []⟩ : SaveObs) else ss.find? (·.dir = li.dir)
+            match p.1.2, ds.find? (·.name = li.name), sObs with
             | some m, some o, some s =>
               if !layerMatches li m o then some ("load:" ++ String.ofList li.name)
+              else if dirComp then none
               else if ops.isEmpty then
                 (if !saveMatches li p.2 s then some ("save:" ++ String.ofList li.name) else none)
               else match es.find? (·.name = li.name) with
@@ -415,6 +421,7 @@ def run (inp obs : List String) : Verdict :=
       (if layers.length ≥ 2 then ["multi-layer"] else []) ++
       (if layers.length ≥ 5 then ["layers-ge5"] else []) ++
       (if layers.length > 32 then ["layers-gt32"] else []) ++
+      (if dirComp then ["dir-component"] else []) ++
       (if inp.contains "V2" then ["ufo2"] else []) ++
       (if inp.any (·.startsWith "G:") && inp.any (·.startsWith "K:") then ["kerning-groups"] else []) ++
       (if inp.any (·.startsWith "A:") then ["other-font-first"] else []) ++
